@@ -15,7 +15,9 @@ PROP = dict(
                        "error iff playlist damaged", "renditions of unreferenced groups are found"]),
         dict(binary="zext", driver="docpost", quick=400, thorough=6000, shard=50,
              monitors=["post_hops: children at the item's hop count, outlinks one further", "post_hop_guard: no outlink at or beyond --max-hops",
-                       "post_split: planted URLs become children / outlinks", "the archiver keeps the document's body"]),
+                       "post_split: planted URLs become children / outlinks (document = freshly archived seed)", "the archiver keeps the document's body",
+                       "post_at_all_found: every planted link of a document at asset depth <= 2 counted without redirections is extracted, "
+                       "wherever redirections sit between seed, page and asset"]),
         dict(binary="zext", driver="s3", quick=400, thorough=8000, shard=40,
              monitors=["s3_walk_complete: every non-empty object under the root prefix queued", "s3_walk_complete (converse): nothing else queued",
                        "s3_walk_terminates within walk_bound fetch decisions"]),
@@ -32,7 +34,8 @@ PROP = dict(
             "fasturl's verdict and xurls' matches as data; every generated document is rendered and read back by the real parser on every run. "
             "The bucket server is a model (continuation token = cursor into the listing order, honoured whatever the other parameters are; "
             "single-byte or no delimiter; ListObjects without delimiter), cross-checked page by page against an independently written Go simulator. "
-            "Post-processing (extractAssets / extractOutlinks dispatch, hop counts, hop limit) is modelled for a freshly archived item at depth 0 with "
+            "Post-processing (extractAssets / extractOutlinks dispatch, hop counts, hop limit, the 'too deep' cut-off on the depth without redirections "
+            "for every position of the item on a path of redirection / asset edges below its seed) is modelled for a freshly archived item with "
             "assets capture on and domains crawl off, for JSON / XML / sitemap / M3U8 bodies under their usual Content-Types; the S3 branch of the "
             "dispatch (IsS3) and the site-specific extractors are not modelled.",
     assumptions=["the real parser reads the rendering of a generated AST back to that AST (checked on every case by the model-vs-implementation diff)",
@@ -41,8 +44,10 @@ PROP = dict(
     level_text="Theorems over all documents / playlists / buckets: findURLs returns exactly the oracle-accepted string values reachable through arrays, "
                "objects and likely-JSON strings at any depth, split by a byte-exact hasFileExtension whose specification (last path segment) is proved; "
                "the RawToken walk returns exactly the http-prefixed attribute values, trimmed http-prefixed character data and regex matches at any depth; "
-               "M3U8 returns all segment, variant and referenced-rendition URIs; for every bucket, page size >= 1, both list APIs, every delimiter, root prefix "
+               "M3U8 returns all segment, variant and referenced-rendition URIs; the depth that decides post-processing's cut-off (read off the shared item-tree model) "
+               "counts asset edges only, for every path from the seed, so a document at asset depth <= 2 yields all its links whatever redirections lie on the way; for every bucket, page size >= 1, both list APIs, every delimiter, root prefix "
                "and every fetch order the walk over the links extractor.S3 returns ends within an explicit bound having queued exactly the non-empty objects. "
-               "Tied to the real extractor.JSON / XML / IsSitemapXML / M3U8 / S3 / hasFileExtension by planted-URL generators and a bucket simulator on every run.",
+               "Tied to the real extractor.JSON / XML / IsSitemapXML / M3U8 / S3 / hasFileExtension by planted-URL generators (documents placed at generated positions of the seed's item tree: 0..3 redirections before the page, page / asset / asset of asset, "
+               "redirections between them) and a bucket simulator on every run.",
     technique="Coq proof over an executable model + differential correspondence with planted-URL monitors",
 )
